@@ -25,8 +25,8 @@ ASSUMPTIONS = ['independent writer pbt/fcsgen.py (int.to_bytes / bit patterns)',
                'non-power-of-two ranges are kept where ceil(log2 R) is exact in float arithmetic; integer ranges '
                'never exceed 2^width (the statement quantifies over ranges up to 2^w)']
 BUDGET = {
-    'quick': dict(examples=4000, time_s=300),
-    'thorough': dict(examples=200000, time_s=2400),
+    'quick': dict(examples=4000, time_s=300, fuzz=dict(workers=4, runs=500, max_s=60)),
+    'thorough': dict(examples=200000, time_s=2400, fuzz=dict(workers=8, runs=6000, max_s=300)),
 }
 
 WIDTHS = [8, 16, 24, 32, 40, 48, 56, 64]
